@@ -201,6 +201,9 @@ class RSAKey(object):
         :type sLen: int
         :param sLen: length of salt"""
         EM = self.EMSA_PSS_encode(mHash, numBits(self.n) - 1, hAlg, sLen)
+        # EM is one byte shorter than the modulus when the modulus bit length
+        # is 1 mod 8, the integer it represents is the same with leading zero
+        EM = bytearray(max(0, numBytes(self.n) - len(EM))) + EM
         try:
             ret = self._raw_private_key_op_bytes(EM)
         except ValueError:
@@ -281,6 +284,13 @@ class RSAKey(object):
             EM = self._raw_public_key_op_bytes(S)
         except ValueError:
             raise InvalidSignature("Invalid signature")
+        # when the modulus bit length is 1 mod 8 the encoded message is one
+        # byte shorter than the modulus and that extra byte must be zero
+        emLen = divceil(numBits(self.n) - 1, 8)
+        if len(EM) > emLen:
+            if any(EM[:len(EM) - emLen]):
+                raise InvalidSignature("Invalid signature")
+            EM = EM[len(EM) - emLen:]
         result = self.EMSA_PSS_verify(mHash, EM, numBits(self.n) - 1,
                                       hAlg, sLen)
         if result:
